@@ -32,7 +32,7 @@ def run_impl(case):
         f = fsup.read_text(SF, x, case.get("io"))
         cap = len(x) + len(case["secs"]) + 5
         elems = [fsup.enc_selem(e, classes) for e in fsup.capped(f.data, cap)]
-        return {"elems": elems, "written": codec.enc_str(fsup.write_text(f, case.get("io")))}
+        return {"elems": elems, "written": codec.enc_str(fsup.write_text(f, case.get("io"), False, (f.data,) if case.get("query_in_write") else ()))}
     except Exception as e:
         return codec.enc_exc(e)
 
@@ -126,6 +126,7 @@ def random_case(rng):
         if io:
             case["io"] = io
     case["x"] = codec.enc_str(x)
+    case["query_in_write"] = rng.random() < 0.25
     return case
 
 
